@@ -18,7 +18,7 @@ from mc import core
 ID = "C16"
 LEVEL = "model_checking"
 RULE = ("layouts = {no session, session level} x {no run, run entity}; events files = sub-01 task-A, sub-01 task-B, sub-02 task-A; "
-        "sidecars = root in {none, events, task-A, task-B, task-A+task-B}, sub-01 in the same 5 (with sub entity), sub-02 in "
+        "(task A is spelled task-Adiscriminationlong, so that a root sidecar has a longer path than a deeper one) sidecars = root in {none, events, task-A, task-B, task-A+task-B}, sub-01 in the same 5 (with sub entity), sub-02 in "
         "{none, sub}, session directory in {none, sub+ses, sub+ses+task-A}, decoys in derivatives/ and code/; every sidecar "
         "overrides the shared column with its own tag, owns one extra column, and some carry an invalid tag.  distinct case = "
         "tree; non-trivial = an events file with >= 2 applicable sidecars; state = (layout, sidecar placement); transition = "
@@ -61,10 +61,10 @@ def chain(sidecars, target_rel):
 
 def build_trees(thorough):
     trees = []
-    root_opts = [[], ["events.json"], ["task-A_events.json"], ["task-B_events.json"],
-                 ["task-A_events.json", "task-B_events.json"]]
-    sub1_opts = [[], ["sub-01_events.json"], ["sub-01_task-A_events.json"], ["sub-01_task-B_events.json"],
-                 ["sub-01_task-A_events.json", "sub-01_task-B_events.json"]]
+    root_opts = [[], ["events.json"], ["task-Adiscriminationlong_events.json"], ["task-B_events.json"],
+                 ["task-Adiscriminationlong_events.json", "task-B_events.json"]]
+    sub1_opts = [[], ["sub-01_events.json"], ["sub-01_task-Adiscriminationlong_events.json"], ["sub-01_task-B_events.json"],
+                 ["sub-01_task-Adiscriminationlong_events.json", "sub-01_task-B_events.json"]]
     sub2_opts = [[], ["sub-02_events.json"]]
     for ses in (False, True, "datatype"):
         for run in ((False, True) if thorough else (False,)):
@@ -74,8 +74,8 @@ def build_trees(thorough):
                 n = f"sub-{sub}" + ("_ses-1" if ses else "") + f"_task-{task}" + ("_run-1" if run else "") + "_events.tsv"
                 return d + "/" + n
             # the last one lies in the dataset root itself (no directory component below the root)
-            events = [ev("01", "A"), ev("01", "B"), ev("02", "A"), "task-A" + ("_run-1" if run else "") + "_events.tsv"]
-            ses_opts = [[]] if not ses else [[], ["sub-01_ses-1_events.json"], ["sub-01_ses-1_task-A_events.json"]]
+            events = [ev("01", "Adiscriminationlong"), ev("01", "B"), ev("02", "Adiscriminationlong"), "task-Adiscriminationlong" + ("_run-1" if run else "") + "_events.tsv"]
+            ses_opts = [[]] if not ses else [[], ["sub-01_ses-1_events.json"], ["sub-01_ses-1_task-Adiscriminationlong_events.json"]]
             for r, s1, s2, se in itertools.product(root_opts, sub1_opts, sub2_opts, ses_opts):
                 for decoy in ((False, True) if (thorough or (not r and not se)) else (False,)):
                     sidecars = list(r) + ["sub-01/" + x for x in s1] + ["sub-02/" + x for x in s2] + \
@@ -130,17 +130,17 @@ def write_tree(root, tree):
         for d in ("derivatives", "code"):
             p = os.path.join(root, d, "sub-01")
             os.makedirs(p, exist_ok=True)
-            with open(os.path.join(root, d, "task-A_events.json"), "w") as f:
+            with open(os.path.join(root, d, "task-Adiscriminationlong_events.json"), "w") as f:
                 json.dump({"shared": {"HED": {"x": "Zzqdecoy", "y": "Zzqdecoy2"}}}, f)
-            with open(os.path.join(p, "sub-01_task-A_events.tsv"), "w") as f:
+            with open(os.path.join(p, "sub-01_task-Adiscriminationlong_events.tsv"), "w") as f:
                 f.write("onset\tHED\n1.0\tZzqdecoyrow\n")
             # the same below the root: an excluded name at any depth takes no part
             sub = "sub-01/ses-1" if tree["ses"] else "sub-01"
             p = os.path.join(root, sub, d)
             os.makedirs(p, exist_ok=True)
-            with open(os.path.join(p, "sub-01_task-A_events.json"), "w") as f:
+            with open(os.path.join(p, "sub-01_task-Adiscriminationlong_events.json"), "w") as f:
                 json.dump({"shared": {"HED": {"x": "Zzqnested", "y": "Zzqnested2"}}}, f)
-            with open(os.path.join(p, "sub-01_task-A_desc-copy_events.tsv"), "w") as f:
+            with open(os.path.join(p, "sub-01_task-Adiscriminationlong_desc-copy_events.tsv"), "w") as f:
                 f.write("onset\tHED\n1.0\tZzqnestedrow\n")
     return contents
 
